@@ -1,6 +1,7 @@
 //! Correspondence harness: generates cases, runs the real implementation in-process and writes
 //! one line per case: `op<TAB>args…<TAB>=><TAB>answer`.
 mod common;
+mod c09;
 mod c19;
 
 use common::Ctx;
@@ -37,6 +38,7 @@ fn main() {
     ctx.corpus_cases = ctx.lines.len();
     if args[2] != "replay" {
         match prop {
+            "C09" => c09::generate(&mut ctx),
             "C19" => c19::generate(&mut ctx),
             _ => {
                 eprintln!("unknown property {prop}");
@@ -57,5 +59,5 @@ fn dispatch_replay(ctx: &mut Ctx, f: &[&str]) -> bool {
     if f.is_empty() {
         return false;
     }
-    c19::replay(ctx, f)
+    c19::replay(ctx, f) || c09::replay(ctx, f)
 }
